@@ -224,8 +224,16 @@ FamBind ==
              \cup { Pair([BaseMember(b) EXCEPT !.mut = sm], 0, TRUE) : sm \in ScalMut(b) }
              \cup { Pair([BaseMember(b) EXCEPT !.v = vf[1]], vf[2], FALSE) : vf \in VFirst(BaseMember(b)) } : b \in BB }
 
+(***************************************************************************************************)
+(* roundtrip (C15): prover outputs of the configuration lattice passed through to_bytes / from_bytes  *)
+(***************************************************************************************************)
+FamRoundtrip ==
+  { [One(Plain(n, t, mc[1], mc[2], IF mc[1] = 1 /\ t % 2 = 0 THEN 1 ELSE 0), "RecoverAndVerify") EXCEPT !.viabytes = TRUE] :
+      n \in AllN, t \in 1..6, mc \in (IF Quick THEN {<<1,1>>, <<2,2>>, <<4,8>>, <<8,8>>} ELSE MCap(16, 16)) }
+
 Scenarios ==
   CASE Family = "complete" -> FamComplete
+    [] Family = "roundtrip" -> FamRoundtrip
     [] Family = "bind"     -> FamBind
     [] Family = "hedge"    -> FamHedge
     [] Family = "witness"  -> FamWitness
